@@ -36,15 +36,16 @@ Inductive path (ns : list vertex) (es : list arc) : vertex -> vertex -> Prop :=
 
 Definition acyclic (ns : list vertex) (es : list arc) : Prop := forall a, ~ path ns es a a.
 
-(* executable: nodes reachable in at most [k] further steps *)
-Fixpoint reachb (k : nat) (ns : list vertex) (es : list arc) (a b : vertex) : bool :=
-  match k with
-  | 0 => false
-  | S k' => existsb (fun e => Nat.eqb (fst e) a && mem a ns && mem (snd e) ns &&
-                              (Nat.eqb (snd e) b || reachb k' ns es (snd e) b)) es
-  end.
+(* executable: grow the set of nodes reachable from [front] |ns| times *)
+Definition step_set (ns : list vertex) (es : list arc) (r : list vertex) : list vertex :=
+  fold_left (fun acc e =>
+     if mem (fst e) acc && mem (fst e) ns && mem (snd e) ns && negb (mem (snd e) acc) then snd e :: acc else acc) es r.
+Fixpoint closure (k : nat) (ns : list vertex) (es : list arc) (r : list vertex) : list vertex :=
+  match k with 0 => r | S k' => closure k' ns es (step_set ns es r) end.
+Definition succs_of (ns : list vertex) (es : list arc) (a : vertex) : list vertex :=
+  map snd (filter (fun e => Nat.eqb (fst e) a && mem a ns && mem (snd e) ns) es).
 Definition acyclicb (ns : list vertex) (es : list arc) : bool :=
-  forallb (fun a => negb (reachb (List.length ns) ns es a a)) ns.
+  forallb (fun a => negb (mem a (closure (List.length ns) ns es (succs_of ns es a)))) ns.
 
 (* ------------------------------------------------------------------------------------------
    The reference reading of a DiGraph history, evaluated on what the implementation was observed
@@ -89,11 +90,15 @@ Definition pre_opb (g : graph) (o : op) : bool :=
   | RemoveNodes l c =>
       nodupb l && subsetb l (g_nodes g) &&
       (negb c || forallb (fun n => match lookup (g_preds g) n with [] => true | _ => false end) l)
-  | RemoveNodesConnections l => nodupb l && subsetb l (g_wip g)
+  | RemoveNodesConnections l =>
+      (* the node has been run / is ready: no connection from a predecessor is left *)
+      nodupb l && subsetb l (g_wip g) &&
+      forallb (fun n => match lookup (g_preds g) n with [] => true | _ => false end) l
   | RemovePreviousConnections l =>
       nodupb l && subsetb l (g_wip g) &&
       forallb (fun n => match lookup (g_succs g) n with [] => true | _ => false end) l
-  | RemoveSuccessorsNodes n => mem n (g_wip g)
+  | RemoveSuccessorsNodes n =>
+      mem n (g_wip g) && match lookup (g_preds g) n with [] => true | _ => false end
   | Sort | GetSorted | Copy => true
   end.
 Definition must_succeed (g : graph) (o : op) : bool := wfb g && pre_opb g o.
